@@ -266,6 +266,22 @@ class Registry:
             vf.contract_key = k
         return vf
 
+    def vfunc_for_lambda(self, func):
+        """a live lambda of the repository (e.g. the validators in Message.Length) is inlined from its real source line"""
+        from .interp import VFunc, Frame
+
+        code = func.__code__
+        fn = os.path.realpath(code.co_filename)
+        if not fn.startswith(SRC):
+            return None
+        file = os.path.relpath(fn, SRC)
+        cands = [n for n in ast.walk(self.tree(file)) if isinstance(n, ast.Lambda) and n.lineno == code.co_firstlineno]
+        if len(cands) != 1:
+            return None
+        mod = self.module_for(file)
+        fr = Frame(mod.__dict__, {}, None, None, file, '<module>')
+        return VFunc(cands[0], fr, f'<lambda@{file}:{code.co_firstlineno}>', module=file)
+
     def resolve_class(self, spec):
         mod, name = spec.split(':')
         m = importlib.import_module(mod)
